@@ -50,7 +50,13 @@ impl Drop for Arena {
 }
 
 pub fn mk_path(p: &PathT) -> aml::Path {
-    aml::Path::new(&p.to_string())
+    // both public conversions are exercised: `Path::new` and `From<&str>`
+    let s = p.to_string();
+    if p.segs.len() % 2 == 0 {
+        aml::Path::new(&s)
+    } else {
+        s.as_str().into()
+    }
 }
 
 /// Interned leak: each distinct string content is leaked once per process.
